@@ -746,7 +746,13 @@ asn_double2REAL(REAL_t *st, double dbl_value) {
     }
 
 	/* Remove parts of the exponent, leave mantissa and explicit 1. */
-	dscr[0] = 0x10 | (dscr[0] & 0x0f);
+	if(fabs(dbl_value) < DBL_MIN) {
+		/* Subnormal: no implicit 1, the exponent is that of DBL_MIN */
+		dscr[0] = (dscr[0] & 0x0f);
+		expval = DBL_MIN_EXP - 1;
+	} else {
+		dscr[0] = 0x10 | (dscr[0] & 0x0f);
+	}
 
 	/* Adjust exponent in a very unobvious way */
 	expval -= 8 * ((mstop - dscr) + 1) - 4;
@@ -809,8 +815,13 @@ asn_double2REAL(REAL_t *st, double dbl_value) {
 		*ptr++ = expval;
 	}
 
-	buflen = (mstop - dscr) + 1;
-	memcpy(ptr, dscr, buflen);
+	{
+		/* 11.3.1: the mantissa is represented in the fewest octets necessary */
+		const uint8_t *mstart = dscr;
+		while(mstart < mstop && *mstart == 0) mstart++;
+		buflen = (mstop - mstart) + 1;
+		memcpy(ptr, mstart, buflen);
+	}
 	ptr += buflen;
 	buflen = ptr - buf;
 
